@@ -30,6 +30,7 @@ def run(ck, fb):
     r03k(ck, fb)
     r03l(ck, fb)
     r03m(ck, fb)
+    r03n(ck, fb)
     ck.borrow('rules.c02', {'R02a': 'R03h'}, 'the index-area rewind of strip_log_to sizes what write() stored')
 
 
@@ -477,3 +478,22 @@ def r03m(ck, fb, R='R03m'):
             ck.require(not extra, R, 'handle_request:StripLogToIndex-always-strips', s0.where(),
                        'a file actor that is told to strip at k does so only if %s: together with the manager, which drops a file only for k < start_index, '
                        'the file that starts at k is left as it is' % extra, 'unconditional')
+
+
+def r03n(ck, fb, R='R03n'):
+    ck.rule(R, '"makes every entry at or above k unreadable": FileStore::delete_logs_from answers Ok only after it has handed StripLogToIndex to the log '
+               'manager - every path from its entry to an Ok return passes the send (error returns are free). Whether there is anything to cut is decided '
+               'where the end of the log is known exactly (strip_log_to compares with the exclusive end index); a shortcut in front of the send that '
+               'compares `start` with the inclusive last index skips the cut at k = last, the one-surplus-entry case of the follower conflict path')
+    b = ck.main(c02.FS + 'delete_logs_from', R)
+    if not b:
+        return
+    sd = util.sends(b, r'RaftLogManagerRequest$', 'StripLogToIndex')
+    ck.floor(R, 'StripLogToIndex sends in delete_logs_from', len(sd), 1)
+    via = {x[0].bb for x in sd}
+    # error exits: the `?` of an awaited call (FromResidual) and explicit Err values
+    errs = {x.bb for x in b.calls(r'FromResidual.*::from_residual$')} | {i for (i, j, st) in b.aggregates(r'^std::result::Result$', 'Err')}
+    r = cfg.reach_from(b, [0], blocked_blocks=via | errs, blocked_edges=cfg.flag_infeasible_edges(b, 0))
+    leaks = [x for x in b.return_blocks() if x in r]
+    ck.require(not leaks, R, 'delete_logs_from:ok-only-after-strip-request', b.where(leaks[0]) if leaks else b.where(),
+               'delete_logs_from can answer Ok without having sent StripLogToIndex: a truncation is reported as done although nothing was cut', 'no Ok without the request')
